@@ -9,6 +9,7 @@ from vf.simk.world import World
 
 ID = "C09"
 LEVEL = "exploration"
+ALT_MOUNT = True          # run once more with procfs mounted at /hostproc (vf/child.py)
 NET_HDR = (b"Inter-|   Receive                                                |  Transmit\n"
            b" face |bytes    packets errs drop fifo frame compressed multicast|bytes    packets errs drop fifo colls carrier compressed\n")
 NET_MAP = {"bytes_recv": 0, "packets_recv": 1, "errin": 2, "dropin": 3, "bytes_sent": 8, "packets_sent": 9, "errout": 10, "dropout": 11}
